@@ -1,8 +1,8 @@
 ---------------------------- MODULE Trace_Absorb ----------------------------
 (* C12 conformance (trace-monitor).  One record = one REAL pulsed run of fdtdx in a small domain whose six faces
    carry absorbing layers, plus the REAL run of the same source in a much larger reference domain:
-     face, kind, pol, thick       the configuration (must be one of AbsorbDefs!Configs)
-     thickFaces                   thickness (cells) of the six placed PerfectlyMatchedLayer objects
+     face, kind, pol, thick, grading   the configuration (must be one of AbsorbDefs!Configs)
+     thickFaces, kappaEndFaces    thickness (cells) and kappa_end * 1000 of the six placed PerfectlyMatchedLayer objects
      dcPpb                        |sum s| / sum |s| of the source pulse sampled at the run's time steps  (ppb)
      tOff, transit, tQuiet, T     time stamps (steps): pulse over / one transit of the whole domain / quiet / end
      events [{t, e}]              interior energy from the library's EnergyDetector, units 1e-9 * peak (floor)
@@ -20,8 +20,8 @@ VARIABLE ci
 Phase(c, ev) == D!PhaseAt(ev.t, c.tOff, c.tQuiet)
 N(c) == Len(c.events)
 Shape(c) ==
-    /\ [face |-> c.face, kind |-> c.kind, pol |-> c.pol, thick |-> c.thick] \in D!Configs
-    /\ Len(c.thickFaces) = 6
+    /\ [face |-> c.face, kind |-> c.kind, pol |-> c.pol, thick |-> c.thick, grading |-> c.grading] \in D!Configs
+    /\ Len(c.thickFaces) = 6 /\ Len(c.kappaEndFaces) = 6
     /\ N(c) >= 3 /\ \A i \in 1..N(c) : c.events[i].t >= 0 /\ c.events[i].t < c.T /\ c.events[i].e >= 0
     /\ \A i \in 1..(N(c) - 1) : c.events[i].t < c.events[i + 1].t
 Timing(c) ==
@@ -46,6 +46,7 @@ Verdict(c) ==
          THEN "window: recorded field differs from the large reference domain by 1e-4 or more in relative energy"
     \* not part of the statement (reported as spec drift): the placed layers are not the configured ones
     ELSE IF \E i \in 1..6 : c.thickFaces[i] # c.thick THEN "layers: a placed layer does not have the configured thickness"
+    ELSE IF \E i \in 1..6 : c.kappaEndFaces[i] # D!KappaEndMilli(c.grading) THEN "layers: a placed layer does not have the configured kappa grading"
     ELSE "ok"
 TInit == ci = 1 /\ TLCSet(1, << >>)
 TNext == /\ ci <= Len(Cases)
